@@ -8,7 +8,7 @@ from harness.common import Check, draft_classes
 from harness.encode import enc, dec
 
 DRAFTS = (3, 4, 6, 7)
-FORMS = ("minimum", "exclusiveMinimum", "maximum", "exclusiveMaximum", "multipleOf")
+FORMS = ("minimum", "exclusiveMinimum", "maximum", "exclusiveMaximum", "multipleOf", "maximum+exclusiveMaximum", "minimum+exclusiveMinimum")
 encode.MAXBITS = 20000
 
 
@@ -20,6 +20,9 @@ def schemas_for(d, b):
     else:
         out = [{"minimum": b}, {"exclusiveMinimum": b}, {"maximum": b}, {"exclusiveMaximum": b}]
     out.append(({"divisibleBy": b} if d == 3 else {"multipleOf": b}) if b > 0 else None)
+    # both keywords of a pair in one schema object (drafts 6/7): the far bound must not disturb the near one
+    out.append({"maximum": b, "exclusiveMaximum": 2 ** 1300} if d >= 6 else None)
+    out.append({"minimum": b, "exclusiveMinimum": -2 ** 1300} if d >= 6 else None)
     return out
 
 
@@ -123,8 +126,8 @@ def main(args):
     ob = Observer(cls)
     quick = args.tier == "quick"
     ck.rule = ("(instance, bound) pairs = reachable states of spec/mc/MC_C09 (numbers with <= 2 set bits over an exponent "
-               "set reaching subnormals, 2^53, 2^1024, 2^1200%s; both signs; int/float representations) x 5 keyword "
-               "forms x 4 drafts; plus seeded random pairs from 10 families (random doubles, exact float multiples, "
+               "set reaching subnormals, 2^53, 2^1024, 2^1200%s; both signs; int/float representations) x 7 keyword "
+               "forms (incl. maximum next to a far exclusiveMaximum and minimum next to a far exclusiveMinimum in drafts 6/7) x 4 drafts; plus seeded random pairs from 10 families (random doubles, exact float multiples, "
                "power-of-two divisors, integer divisors, witnessed huge integers, 2^53 neighbourhood, subnormals, zeros, "
                "dense integers, huge-int/float) validated by Trace_C09. Non-trivial: both operands non-zero; distinct by "
                "(repr(x), repr(b))." % ("" if quick else ", 2^10000"))
@@ -142,6 +145,11 @@ def main(args):
             col = [o[j] for o in obs]
             if any(c != want[j] for c in col):
                 ck.violation(FORMS[j], {"x": repr(x), "b": repr(b), "expected": want[j], "observed_per_draft": col,
+                                        "exceptions": exc, "source": "MC_C09"})
+        for j, key in ((5, "maxp"), (6, "minp")):
+            col = [o[j] for o in obs if o[j] != "n/a"]
+            if any(c != ex[key] for c in col):
+                ck.violation(FORMS[j], {"x": repr(x), "b": repr(b), "expected": ex[key], "observed_per_draft": col,
                                         "exceptions": exc, "source": "MC_C09"})
         col = [o[4] for o in obs]
         m = ex["mult"]
